@@ -252,3 +252,6 @@ def run(rep, programs):
     # a failed attempt gives the huge-entry counter back: the base-order search trusts that counter before it looks at the bits
     from props import c04
     c04.r_balance(rep, prog)
+    # the per-row search itself: a free aligned block in a row is found (exact zero tests, all aligned positions)
+    from props import c23
+    c23.run(rep, programs)
